@@ -297,12 +297,21 @@ def forward_temps(fnode):
         if not _is_simple_assign(s):
           continue
         n = s.targets[0].id
-        if not cen.single_local(n) or len(cen.loads.get(n, [])) != 1:
-          continue
         if any(isinstance(x, _NO_FORWARD) for x in ast.walk(s.value)):
           continue
-        use = cen.loads[n][0]
         if isinstance(nxt, ast.While):
+          continue
+        if cen.single_local(n) and len(cen.loads.get(n, [])) == 1:
+          use = cen.loads[n][0]
+        elif isinstance(nxt, (ast.Return, ast.Raise)) and n not in cen.params and \
+            n not in cen.declared and n not in cen.nested:
+          # a name bound several times (`ret_value = E; return ret_value` on every path): this
+          # binding is consumed by the terminal statement that follows it and by nothing else
+          here = [u for u in cen.loads.get(n, []) if any(x is u for x in ast.walk(nxt))]
+          if len(here) != 1:
+            continue
+          use = here[0]
+        else:
           continue
         heads = header_exprs(nxt)
         if isinstance(nxt, (ast.Assign, ast.AugAssign, ast.Delete)):
